@@ -87,6 +87,95 @@ CHECKS.update({
         ref='DESIGN.md §6 C16'),
 })
 
+CHECKS.update({
+    'C04': dict(
+        text='Lean theorems at R show that the closed-form gradient the driver executes is, coordinate by coordinate (HasDerivAt along each '
+             'axis), the partial derivative of every CPU kernel and of the whole predictor sum_i c_{l,i} k(x_i,.), through a diagonal feature '
+             'matrix end to end, with output-wise linearity (no mixing between outputs), the chain rule for a symmetric matrix, and an exactly '
+             'zero term for a coinciding center. The real get_function_grads, RFM.get_grads and xRFM.get_grads are compared with these closed '
+             'forms under a computed allowance, and independently with Richardson finite differences of the real kernel and predict.',
+        note=TB + 'Per-coordinate only: the joint HasFDerivAt statement C04_full, the full-matrix chain rule tied to the list kernels and the '
+             'light kernel with a full matrix are stated, not proved. Exact real arithmetic; rounding (incl. the unmasked self-term cancellation of '
+             'the expansion-distance kernels) is absorbed by a computed per-entry allowance. No translator tie (correspondence only). torch '
+             'autograd, cdist, solve, SVD are modelled, not verified.',
+        technique='Lean 4 + Mathlib calculus (HasDerivAt) over a scalar-generic executable model; float64 correspondence with computed allowance; finite-difference oracle',
+        ref='DESIGN.md §6 C04'),
+    'C05': dict(
+        text='Symmetry, unit diagonal, range (0,1], light = L2 for M = T^2 (symmetric T), product = Lpq(q,q), row-locality and the alias table '
+             '(regenerated from kernel_from_str) are proved in Lean at R for all dimensions and points, for the same definitions the driver runs '
+             'at Float; these are compared entry-wise with the real kernels and every alias under a computed rounding allowance. Positive '
+             'semi-definiteness is NOT proved (2-point case only; C05_psd stays a stated Prop) and is checked numerically.',
+        note=TB + 'Exact real arithmetic; rounding absorbed by an interval-image allowance per entry (cdist expansion mode above 25 rows, M-form of '
+             'the light kernel); PSD for 0<q<=p<=2 (Schoenberg) unproved; CPU only.',
+        technique='Lean 4 + Mathlib scalar-generic model (R proofs / Float driver), alias table regenerated by the AST translator, exhaustive alias and guard correspondence',
+        ref='DESIGN.md §6 C05'),
+    'C07': dict(
+        text='Theorems (Props/C07.lean) over the index-level model of _build_tree/_get_balanced_split/_refill_val_set built from the regenerated '
+             'Gen.Split/Gen.Refill, with torch.sort and torch.randperm as oracles that only have to return permutations: at zero overlap the '
+             'centers and moved samples of all leaves are a permutation of 0..n-1 (no loss, no duplicate, never both); with overlap every sample '
+             'is held at least once and each leaf holds distinct samples; per leaf at most min(refill - routed, int(0.2 m)) samples are moved, '
+             'none when routed validation exceeds the refill size or for a single leaf; reported indices, rows and targets are indexed by the same '
+             'lists. Recorded real fits feed their sort/randperm values to the Lean build; leaf index lists must be identical.',
+        note=TB + 'Modelled, not verified: torch.sort/randperm (permutation contract, checked on every recorded value), boolean-mask indexing and '
+             'torch.cat (list semantics), int(n*0.2) (oracle; = n//5 checked for all n up to 1e5/2e6 in C06). ok (no assertion failure) is an '
+             'hypothesis here and a theorem of C06 for the size skeleton.',
+        technique='Lean 4 proof (List.Perm algebra, induction over the construction, regenerated integer code) + recorded-oracle differential check',
+        ref='DESIGN.md §6 C07'),
+    'C08': dict(
+        text='Theorems (Props/C08.lean): for every node size (odd/even), overlap band and linear order of projections, a sample not tied with the '
+             'threshold is sent by the regenerated prediction rule (Gen.Route.goesLeft) to a child that received it from the rank split '
+             '(lower-median contract); by induction over the construction every training sample untied along its route reaches a leaf that '
+             'holds it; the validation rule and the prediction rule are the same predicate. Recorded fits: sort/median contract checked per node, '
+             'masks and decisions compared with the Lean node model, real prediction-time routing of all training and validation rows compared '
+             'with the training-time assignment, including an exact-tie family with validation points lying exactly on thresholds.',
+        note=TB + 'Modelled, not verified: torch.sort (ascending permutation) and torch.median (lower median) - contracts checked on every recorded '
+             'node; matmul rounding (rows within 1e-5 relative of a threshold are excluded and counted, as the property allows).',
+        technique='Lean 4 proof (order/rank arithmetic with omega, induction over the tree) over regenerated code + recorded differential check',
+        ref='DESIGN.md §6 C08'),
+    'C12': dict(
+        text='Proved over R for any number of classes, trees, leaves and any real leaf outputs: clamp-normalise, soft mixtures with simplex weights '
+             'and means over trees give probability rows; labels are in range; with one hard tree predict is the first arg-max of the '
+             'predict_proba row; in prevalence mode rows whose kernel values are all 0 equal the clamp-normalised training frequencies (within '
+             '(K+1)eps of the frequencies). Fitted classifiers over all listed configurations are inspected directly and every row and label is '
+             'recomputed by the Lean model from the model\'s own raw leaf outputs.',
+        note=TB + 'Soft-routing weights on the simplex is an hypothesis here (theorem of C09), checked on the weights read from the implementation; '
+             'kernel underflow to 0 at far rows is observed, not proved; leaf regression outputs and torch arithmetic are modelled; AUC-undefined '
+             'leaves are excluded (property proviso).',
+        technique='Lean 4 convexity lemmas over Finset sums + C13 codec; per-row recomputation on Float with float32 allowance',
+        ref='DESIGN.md §6 C12'),
+    'C13': dict(
+        text='Proved in Lean over R for every K>=2 and every prior (zeros included): under the QR contract Q^T Q = I, Q Q^T = I - J/K the augmented '
+             'code matrix is invertible with inverse [Q|prior], so the stored inverse decodes v to prior + Qv; hence prevalence and zero_one '
+             'round-trips, squared code distance 2, zero -> prior, affinity before clamping, and validity of clamp-normalised decodes of any real '
+             'vector. The same definitions run on Float against the real ClassificationConverter, exhaustively over count vectors for small K and '
+             'on a grid up to K=12 with decoder inputs up to 1e6.',
+        note=TB + 'Q (torch.linalg.qr) and _invA (torch.linalg.inv) are oracles whose contracts are checked on every value the implementation '
+             'produced; float32 rounding is outside the theorems and absorbed by computed allowances.',
+        technique='Lean 4 linear algebra over Fin-indexed sums (Mathlib), scalar-generic model, exhaustive + grid correspondence',
+        ref='DESIGN.md §6 C13'),
+    'C14': dict(
+        text='Lean theorems at R: the uncentred AGOP is independent of batching and row order, symmetric and PSD, its largest entry is positive, on '
+             'the diagonal and exactly one after normalisation; the stored root of an orthonormal decomposition squares back; a rational witness '
+             'proves that per-batch centring depends on the partition (the open known finding). Every fit_M call of real RFM.fit runs is '
+             'recomputed by the driver from the recorded predictor (own kernel term omitted) and the properties are evaluated directly on the '
+             'implementation\'s matrices.',
+        note=TB + 'Exact real arithmetic with the eigendecomposition as a contract-checked oracle; the 1e-30 regulariser is idealised; the in-place '
+             '1e-8*I jitter is modelled in the check, not in the theorems; gradient correctness is C04. Open known finding: center_grads=True with '
+             'multi-batch accumulation (known_findings.json).',
+        technique='Lean 4 + Mathlib proofs over a scalar-generic model incl. a rational counterexample; recorded-state correspondence; direct property oracle',
+        ref='DESIGN.md §6 C14'),
+    'C19': dict(
+        text='Scale laws of the sort-based lower/upper median, of distances in each kernel\'s own norm (any transform), of the adapted bandwidth, of '
+             'every Laplace-family kernel value and of the whole Gram matrix are proved in Lean at R; invariance of every iterate\'s predictions '
+             'is proved for any iteration budget given a scale-covariant AGOP step, and unconditionally for the first solve. Real adaptive fits '
+             'are checked for bandwidth = base x median of the stored transformed centers of the selected iterate and for prediction invariance '
+             'under rescaling by 1e-3..1e3.',
+        note=TB + 'AGOP scale covariance is an unproved contract (fit_scale_invariant_partial; full statement kept as a Prop); the <1e-14 median '
+             'guard is assumed off; the float64 prediction comparison uses a computed distance-rounding allowance (with a heuristic (1+iters) factor).',
+        technique='Lean 4 + Mathlib (List.map_mergeSort, rpow algebra, induction over the fit loop with oracles) + rescaled real fits with scripted selection',
+        ref='DESIGN.md §6 C19'),
+})
+
 NOT_YET = {}
 
 
